@@ -31,9 +31,19 @@ def make(evs):
         if e.get("ev") == "schema":
             sch[e["h"]] = e
 
+    def ctx(ev):
+        """Shape bookkeeping (never a verdict): `chain3` = some (timing, event) of the statement's kind has at least
+        three triggers of which at least two were created with FOLLOWS / PRECEDES."""
+        out = []
+        for tm in ("before", "after"):
+            g = [t for t in sch.get(ev["h"], {}).get("trigs", []) if t["event"] == ev["stmt"]["k"] and t["timing"] == tm]
+            if len(g) >= 3 and sum(1 for t in g if t["rel"]) >= 2:
+                out.append("chain3")
+        return ",".join(sorted(set(out)))
+
     def sig(m, ev):
         r = ev["reply"]
-        return "C23|%s|got=%s|%s" % ("+".join(m["what"]), r["kind"] + (":" + r["class"] if r.get("class") else ""), ev["stmt"]["k"])
+        return "C23|%s|got=%s|%s|%s" % ("+".join(m["what"]), r["kind"] + (":" + r["class"] if r.get("class") else ""), ev["stmt"]["k"], ctx(ev))
 
     def det(m, ev):
         s = sch.get(ev["h"], {})
